@@ -68,12 +68,22 @@ def run_worlds(chk, replay, machine, tracemod, replay_cmd, renderers, plans, sam
             vs = [dict(dims=e["dims"], base=e["base"], code=e["code"]) for e, _ in first if e["r"] == r]
             o2, b2 = replay_and_judge(vs, (r,))
             again = {(e["code"], tuple(e["dims"]), e["base"]): why for e, why in b2}
+            lone = [v for v in vs if (v["code"], tuple(v["dims"]), v["base"]) not in again]
+            again_seq = {}
+            if lone:
+                # accepted when rendered alone: does the renderer carry state from the earlier renders of the same
+                # process into this one?  Render the whole sequence again, in the same order.
+                o3, b3 = replay_and_judge(allvec, renderers)
+                again_seq = {(e["code"], tuple(e["dims"]), e["base"]): why for e, why in b3 if e["r"] == r}
             for v in vs:
                 k = (v["code"], tuple(v["dims"]), v["base"])
-                if k not in again:
-                    raise vlib.Inconclusive("rejected observation did not reproduce: %s %s" % (r, v))
                 e = [e for e, _ in first if e["r"] == r and e["code"] == v["code"] and e["dims"] == v["dims"]][0]
-                confirmed.append((e, again[k], v))
+                if k in again:
+                    confirmed.append((e, again[k], v))
+                elif k in again_seq:
+                    confirmed.append((e, "after-earlier-renders-of-the-same-process:" + again_seq[k], v))
+                else:
+                    raise vlib.Inconclusive("rejected observation did not reproduce: %s %s" % (r, v))
     for e, why, v in confirmed:
         chk.violation(key_of(e, why),
                       "real %s output for world dims=%s base=%d code=%d rejected: %s (%d items)" % (
